@@ -167,11 +167,12 @@ def body(ctx):
             labels.append('directory cwd=%s' % cwd)
     # the same object connected first to a 1 MiB peer, then to a legacy 4 KiB peer (and the other way round)
     for (md1, md2) in ((1024 * 1024, 4096), (4096, 1024 * 1024), (65536, 4097)):
-        k += 1
-        specs.append(dict(seed=ctx.seed + 400 + k, maxdata=md1, rid='plus', frag='whole',
-                          ops=[dict(api='push', size=200000, src='bytesio', path='/a', mtime=3), dict(api='reconnect', maxdata=md2, close_first=bool(k % 2)),
-                               dict(api='push', size=150000, src='bytesio', path='/b', mtime=4)]))
-        labels.append('reconnect %d -> %d' % (md1, md2))
+        for close_first in (True, False):
+            k += 1
+            specs.append(dict(seed=ctx.seed + 400 + k, maxdata=md1, rid='plus', frag='whole',
+                              ops=[dict(api='push', size=200000, src='bytesio', path='/a', mtime=3), dict(api='reconnect', maxdata=md2, close_first=close_first),
+                                   dict(api='push', size=150000, src='bytesio', path='/b', mtime=4)]))
+            labels.append('reconnect %d -> %d (close first: %s)' % (md1, md2, close_first))
     for path in ('/sdcard/caf\xe9.txt', '/\u20ac/\u00fc' + 'x' * 50, '/sdcard/\U0001F600'):
         for src in ('bytesio', 'dir'):
             k += 1
